@@ -357,7 +357,15 @@ func runHistory(c *hx.Ctx, ops []op) {
 	var toks, res, rnames, cnames []string
 	for _, o := range ops {
 		toks = append(toks, o.tok())
-		res = append(res, e.apply(o))
+		var rtok string
+		if msg, panicked := hx.Safe(func() { rtok = e.apply(o) }); panicked {
+			rtok = "panic"
+			if len(msg) > 40 {
+				msg = msg[:40]
+			}
+			c.Count("panic:" + hx.Tok(msg))
+		}
+		res = append(res, rtok)
 		switch o.kind {
 		case "RU", "RA", "RR":
 			rnames = append(rnames, o.r)
